@@ -553,14 +553,14 @@ SSL_CTX *ctx_store_get_ctx(const struct item *cert, const struct item *key,
 
 	LOG_TLS_CREATING_CTX(log_ref, cert, key, tc, crl);
 
-	if (item_load(cert, &cert_data) < 0)
-	    goto out;
-	if (item_load(key, &key_data) < 0)
+	if (item_load(cert, &cert_data) < 0 ||
+	    item_load(key, &key_data) < 0 ||
+	    item_load(tc, &tc_data) < 0 ||
+	    item_load(crl, &crl_data) < 0) {
+	    /* e.g., EISDIR or EACCES from reading the file */
+	    errno = EPROTO;
 	    goto out_free;
-	if (item_load(tc, &tc_data) < 0)
-	    goto out_free;
-	if (item_load(crl, &crl_data) < 0)
-	    goto out_free;
+	}
 
 	if (get_credentials_hash(cert, key, tc, crl, nhash, log_ref) < 0) {
 	    errno = EPROTO;
